@@ -12,7 +12,7 @@ obl=[l.split()[1] for l in check.splitlines() if l.startswith('FAILED-OBLIGATION
 caught=any(l.startswith('VIOLATION') for l in check.splitlines())
 meta={"property":am.get("property",name.split('-')[0]),"source":"independent sub-agent given only the property text and a scratch worktree (contract files removed)",
  "summary":am.get("summary",""),"needs_to_manifest":am.get("needs_to_manifest",""),"files":am.get("files",[]),
- "confirmed_by_me":lines,"what_i_ran":["tools/seed_eval.sh (scratch worktree: git apply, go build ./..., go test ./..., demo with and without the change; then git -C /repo apply, govc check, git -C /repo checkout -- .)"],
+ "confirmed_by_me":lines,"what_i_ran":["tools/seed_eval.sh (scratch worktree: git apply, go build ./..., go test ./..., demo with and without the change; then the same patch on a scratch copy of /repo checked with govc check -repo <copy>)"],
  "caught_by_check":caught,"failing_obligations":obl[:12]}
 json.dump(meta,open(d+'/meta.json','w'),indent=1)
 print(name,"caught" if caught else "MISSED",obl[:3])
